@@ -9,7 +9,9 @@ import (
 
 // ---- C10: hierarchical CAS visibility ----
 
-var c10Names = []string{"", "a", "a/b", "a/b/c", "ab", "b"}
+// (names with dashes: the digest string is dash-separated, and "t-" is a
+// string prefix but not a component prefix of "t-a")
+var c10Names = []string{"", "a", "a/b", "a/b/c", "ab", "b", "t-", "t-a", "t-a/b-c"}
 
 func c10Profile(noEviction bool) func(c *sim.RunCtx) {
 	return func(c *sim.RunCtx) {
